@@ -596,3 +596,34 @@ func isRecoverBlockReturn(ret *ssa.Return) bool {
 	fn := ret.Parent()
 	return fn.Recover != nil && ret.Block() == fn.Recover
 }
+
+// derivesFrom: v is reached from src by field selections, loads, element accesses and re-slicing only.
+func derivesFrom(v, src ssa.Value) bool {
+	for n := 0; n < 64; n++ {
+		if v == src {
+			return true
+		}
+		switch x := v.(type) {
+		case *ssa.FieldAddr:
+			v = x.X
+		case *ssa.Field:
+			v = x.X
+		case *ssa.IndexAddr:
+			v = x.X
+		case *ssa.Index:
+			v = x.X
+		case *ssa.Slice:
+			v = x.X
+		case *ssa.UnOp:
+			if x.Op != token.MUL {
+				return false
+			}
+			v = x.X
+		case *ssa.ChangeType:
+			v = x.X
+		default:
+			return false
+		}
+	}
+	return false
+}
